@@ -506,6 +506,94 @@ def y5(rep, src):
             rep.violation("Y5", "JoinBuilder::and|" + v, "JoinOperator::%s falls to the pass-through arm: `.and(expr)` silently drops the condition (PrivacyUnitTracking::join adds the unit-id equality through it)" % v, f.where())
 
 
+def y8(rep, src):
+    """Chaining of foreign-key hops: the column a hop stores is the column the next hop starts from."""
+    rep.rule(
+        "Y8",
+        "PrivacyUnitPath::into_iter (the hops folded by with_field_path): inside the loop, the hop pushed for the pending step fetches `step.referring_id` under a name N, and the pending step is then replaced by "
+        "(referring = N, step.referred_relation, step.referred_id) — the next hop joins on the column the previous hop produced (N = PrivacyUnitPath::privacy_unit())",
+        floor=3,
+        necessary="if the pending step keeps its old referring column, every hop of a multi-step path joins the FIRST referring column with the later tables' ids: rows are attributed to whatever unit has that id",
+    )
+    fs = [f for f in src.find_fns(name="into_iter", file="privacy_unit_tracking/privacy_unit.rs") if "PrivacyUnitPath" in (f.self_ty or "")]
+    if len(fs) != 1:
+        rep.error("Y8: PrivacyUnitPath::into_iter not found")
+        return
+    f = fs[0]
+    key = "PrivacyUnitPath::into_iter"
+    loops = [n for n in walk(f.body) if n["k"] == "for"]
+    if len(loops) != 1:
+        rep.undecidable("Y8", key, "expected one loop over the steps", f.where())
+        return
+    lp = loops[0]
+    sv = pat_binds(lp["pat"])
+    ifs = [n for n in walk(lp["body"]) if n["k"] == "if" and "Some(" in show(n["cond"], 0) and "last_step" in show(n["cond"], 0)]
+    if len(ifs) != 1 or not sv:
+        rep.undecidable("Y8", key, "expected `if let Some(last_step) = &mut last_step` in the loop", f.where())
+        return
+    br = ifs[0]["then"]
+    pend = [b for b in pat_binds(ifs[0]["cond"]["pat"])] if ifs[0]["cond"].get("pat") else ["last_step"]
+    pend = pend[0] if pend else "last_step"
+    step = sv[0]
+
+    def plain(e):
+        t = show(e, 0).replace(" ", "")
+        for suf in (".to_string()", ".clone()", ".to_owned()", ".into()"):
+            while t.endswith(suf):
+                t = t[: -len(suf)]
+        return t
+
+    lets = {l["pat"]["name"]: l["init"] for l in find(br, "let") if l["pat"]["k"] == "ident" and l.get("init") is not None}
+    lets.update({l["pat"]["pat"]["name"]: l["init"] for l in find(br, "let") if l["pat"]["k"] == "typed" and l["pat"]["pat"]["k"] == "ident" and l.get("init") is not None})
+
+    def first_of(name):
+        e = lets.get(name)
+        if e is not None and e["k"] == "macro" and e.get("name", "").endswith("vec") and e.get("args"):
+            return plain(e["args"][0])
+        return None
+
+    push = [c for c in find(br, "call") if is_call_to(c, "ReferredFields::new")]
+    stored = fetched = None
+    if len(push) == 1 and len(push[0]["args"]) == 5:
+        a = push[0]["args"]
+        fetched = first_of(plain(a[3])) or None
+        stored = first_of(plain(a[4])) or None
+        hop = [plain(a[0]), plain(a[1]), plain(a[2])]
+    else:
+        rep.undecidable("Y8", key, "expected one ReferredFields::new(..) with five arguments in the loop", f.where())
+        return
+    # the new pending step
+    new_ref = new_rel = new_id = None
+    for n in walk(br):
+        if n["k"] != "assign":
+            continue
+        lhs = show(n["lhs"], 0).replace(" ", "")
+        if lhs in ("*" + pend, pend):
+            r = n["rhs"]
+            if is_call_to(r, "Step::new") and len(r["args"]) == 3:
+                new_ref, new_rel, new_id = [plain(x) for x in r["args"]]
+            elif r["k"] == "struct":
+                fl = {fld["name"]: plain(fld["e"]) for fld in r.get("fields", [])}
+                new_ref, new_rel, new_id = fl.get("referring_id"), fl.get("referred_relation"), fl.get("referred_id")
+        elif lhs == pend + ".referring_id":
+            new_ref = plain(n["rhs"])
+        elif lhs == pend + ".referred_relation":
+            new_rel = plain(n["rhs"])
+        elif lhs == pend + ".referred_id":
+            new_id = plain(n["rhs"])
+    rep.instance("Y8", key + "@hop", {"hop": hop, "fetches": fetched, "stored_as": stored})
+    rep.instance("Y8", key + "@next", {"referring": new_ref, "relation": new_rel, "id": new_id})
+    rep.instance("Y8", key + "@chain", {"stored_as": stored, "next_referring": new_ref})
+    if hop != [pend + ".referring_id", pend + ".referred_relation", pend + ".referred_id"]:
+        rep.violation("Y8", key + "@hop", "the hop is not built from the pending step's (referring_id, referred_relation, referred_id): %s" % hop, f.where())
+    if fetched != step + ".referring_id":
+        rep.violation("Y8", key + "@hop", "the hop does not fetch the next step's referring column (%s)" % fetched, f.where())
+    if stored is None or new_ref != stored:
+        rep.violation("Y8", key + "@chain", "the hop stores the fetched key as `%s` but the next hop starts from `%s`" % (stored, new_ref or pend + ".referring_id (unchanged)"), f.where())
+    if new_rel != step + ".referred_relation" or new_id != step + ".referred_id":
+        rep.violation("Y8", key + "@next", "the pending step is not moved to (%s.referred_relation, %s.referred_id): %s, %s" % (step, step, new_rel, new_id), f.where())
+
+
 def b1(rep, mir, prefixes, rid="B1"):
     rep.rule(
         rid,
@@ -613,6 +701,7 @@ def run(rep):
     y4(rep, src)
     y5(rep, src)
     y6(rep, src)
+    y8(rep, src)
     b1(rep, mir, ["privacy_unit_tracking::", "rewriting::rewriting_rule::"])
     t5(rep, src)
     rep.assume("the builders implement their documented semantics (JoinBuilder::and is checked by Y5; With<node> copies the node's inputs: read in relation/builder.rs)")
